@@ -913,3 +913,27 @@ for _n, _lo, _hi in (("StatusCode::is_informational", 100, 199), ("StatusCode::i
                      ("StatusCode::is_client_error", 400, 499), ("StatusCode::is_server_error", 500, 599)):
     AXIOMS[_n] = _status_range(_lo, _hi)
     AXIOM_DOC[_n] = "%d <= code <= %d" % (_lo, _hi)
+
+
+# ------------------------------------------------------------------------------ httparse
+# The tokeniser is a deterministic function of (input bytes, field limit): two parses of the same input
+# with the same limit agree (verdict and parsed pieces). Its grammar is NOT modelled.
+
+def _httparse_parse(call):
+    st = call.st
+    inp = call.arg_key(call.args[1])
+    limit = tuple(call.fr.gargs)   # const generics of the enclosing parser instance (the field limit N)
+    if inp == TOP:
+        return NotImplemented
+    kind = "request" if "Request" in call.path else "response"
+    state = ("term", ("app", "httparse-pieces", kind, inp, limit))
+    res = ("term", ("app", "httparse-verdict", kind, inp, limit))
+    l = call.leaf(0)
+    if l[0] == "ref":
+        st.write_tree(l[1], l[2], leaf_tree(state))
+    return call.ret_leaf(res)
+
+
+for _n in ("Response::<'h, 'b>::parse", "Request::<'h, 'b>::parse"):
+    AXIOMS[_n] = _httparse_parse
+    AXIOM_DOC[_n] = "httparse is a deterministic function of (input, field limit): verdict and parsed pieces are atoms keyed by them"
